@@ -128,7 +128,7 @@ PROPS = {
                                         "seam R4: scan_select contract (unit c01_scan), select_in_word contract (Kani, C02)"],
         "assumptions": ["values.len() <= 2^30 for build (every high-bit position then fits the u32 sample table)",
                         "one trusted arithmetic fact about u64::leading_zeros (axiom_lz_top_bit), cross-checked for all u64 by Kani",
-                        "EliasFanoIter (two-line wrapper over cursor.current / advance_one) is not extracted",
+                        "EliasFanoIter::next / IntoIterator::into_iter ARE extracted (as inherent methods: Verus rejects contracts on trait impls) and proved: the k-th call yields element k; size_hint is not",
                         "usize is 64 bits"],
     },
     "C13": {
